@@ -2,6 +2,7 @@ import ShmVerif.Drv.C04
 import ShmVerif.Drv.C01
 import ShmVerif.Drv.C05
 import ShmVerif.Drv.C03
+import ShmVerif.Drv.C13
 /-! `shmdriver`: reads op lines on stdin, runs the executable models the theorems are about, prints one line
     per op line. First line: `model <name>`; `case <k>` resets the model state. -/
 
@@ -28,6 +29,7 @@ def main : IO Unit := do
   | "model c04" => loop h out ({} : Drv.C04.St) Drv.C04.step {}
   | "model c05" => loop h out ({} : Drv.C05.St) Drv.C05.step {}
   | "model c03" => loop h out ({} : Drv.C03.St) Drv.C03.step {}
+  | "model c13" => loop h out ({} : Drv.C13.St) Drv.C13.step {}
   | "model c01" => loop h out ({} : Drv.C01.St) Drv.C01.step {}
   | _ => out.putStrLn "unknown-model"
   out.flush
